@@ -71,20 +71,24 @@ Definition lcase_ok (c : lcase) : bool :=
    that reaches the queue without going through the limiter (queue.Add) does not match
    `Arrive` and shows as a mismatch. *)
 Record qcase := { qid : N; qreload : bool; qdelta : Z; qwait : Z; qD : Z;
-                  qevents : list (Z * qevent); qobs : list (Z * option nat) }.
+                  qevents : list (Z * qevent); qobs : list (Z * option nat * option Z) }.
+(* per event: Len() (negative: not observed), the item Get returned, and -- after every
+   call of the limiter's When (Arrive) or Forget -- the limiter's `last` read back through
+   the hook, in virtual time *)
 
 Definition far_past : Z := - 4611686018427387904.
 
 Fixpoint qcheck (f : whenfn) (D : Z) (st : qstate) (evs : list (Z * qevent))
-                (obs : list (Z * option nat)) : bool :=
+                (obs : list (Z * option nat * option Z)) : bool :=
   match evs, obs with
   | [], [] => true
-  | e :: evs', (len, it) :: obs' =>
+  | e :: evs', (len, it, lst) :: obs' =>
       match qstep f D st e with
       | None => false
       | Some st' =>
           (* len < 0: not observed (between two timers of one instant) *)
           ((len <? 0) || (Z.of_nat (length (q_fifo st')) =? len)) &&
+          match lst with Some l => q_last st' =? l | None => true end &&
           match snd e, it with
           | Get _, Some i => match q_log st' with ORun j _ :: _ => Nat.eqb i j | _ => false end
           | Get _, None => false
